@@ -233,7 +233,7 @@ def run(ck, prog, ctx):
     # ---- accessors: a method named after a field returns that field, not a sibling of the same type
     ck.rule("GETTER", "an accessor `f()` / `f_mut()` of a struct with a field `f` (or its documented alias) derives its result from that field (DESIGN 3.9)")
     from engines import check_getters
-    check_getters(ck, "GETTER", prog, r"^src/ontology/comparison\.rs$", floor=8)
+    check_getters(ck, "GETTER", prog, r"^src/ontology/comparison\.rs$", floor=4)
 
     # ---- records and terms implement `==` by ID ONLY: using it inside the comparison module answers "same id", never "unchanged"
     idcmp = []
@@ -248,3 +248,8 @@ def run(ck, prog, ctx):
                 if re.search(r"<(&)*(annotations::gene::Gene|annotations::omim_disease::OmimDisease|annotations::orpha_disease::OrphaDisease|term::hpoterm::HpoTerm<[^>]*>|term::internal::HpoTermInternal) as std::cmp::PartialEq", ty):
                     idcmp.append((b_, t_))
     ck.ob("COVER", "no-identity-equality", not idcmp, "the comparison module %s" % ("never uses the id-only `==` of records / terms to decide whether something changed (%d equality calls examined)" % n_cmp if not idcmp else "compares whole records with `==` in %s (line %s): that operator looks at the id only, so two records with the same id are always 'equal'" % (idcmp[0][0].short, idcmp[0][1].line)), where=idcmp[0][0].where(idcmp[0][1].line) if idcmp else None)
+
+    # ---- constructors: a field named like a parameter is initialised from that parameter, not from a sibling of the same type
+    ck.rule("CTOR", "in a struct literal, the field `f` of a function with a parameter `f` derives from that parameter (DESIGN 3.9)")
+    from engines import check_ctors
+    check_ctors(ck, "CTOR", prog, r"^src/ontology/comparison\.rs$", floor=2)
